@@ -101,7 +101,7 @@ class PathEvents:
         return None
 
 
-def all_paths(f, objects=(), unroll=1):
+def all_paths(f, objects=(), unroll=None):
     out = []
     for p in paths(f, unroll=unroll):
         pe = PathEvents(f, p, objects)
